@@ -384,8 +384,27 @@ class CFG:
                 if taken is None or taken < 0:
                     continue
                 if not self.path_exists(self.entry, [pos], removed_edges=[(bid, taken)]):
-                    res.append((self.func.node(cid), pol))
+                    res.extend(implied_atoms(self.func.node(cid), pol))
         return res
+
+
+def implied_atoms(cond, pol):
+    """Atomic conditions implied by `cond` evaluating to `pol`:  (A && B)=true -> A, B true;  (A || B)=false -> A, B false;
+    !A flips.  Returns [(node, polarity)]."""
+    c = strip(cond) if cond is not None else None
+    if c is None:
+        return []
+    if c["k"] == "BinaryOperator" and c["op"] == "&&":
+        if pol:
+            return implied_atoms(c["lhs"], True) + implied_atoms(c["rhs"], True)
+        return [(c, pol)]
+    if c["k"] == "BinaryOperator" and c["op"] == "||":
+        if not pol:
+            return implied_atoms(c["lhs"], False) + implied_atoms(c["rhs"], False)
+        return [(c, pol)]
+    if c["k"] == "UnaryOperator" and c["op"] == "!":
+        return implied_atoms(c["sub"], not pol)
+    return [(c, pol)]
 
 
 class DB:
